@@ -227,9 +227,46 @@ class MayCancel:
                                         s = self.invokes.setdefault(name, set())
                                         if pa not in s:
                                             s.add(pa); changed = True
+        self.live = {}      # fn -> parameter indices that receive a may-cancel callback at some call site (directly or forwarded)
+        self._fix_T()
+        # live callback parameters: inside a callback-parametric function the forwarded / invoked callback may cancel when some caller passes one that can
+        changed = True
+        while changed:
+            changed = False
+            for name in prog.fns():
+                fn = prog.fn(name)
+                for bi, t in fn.calls():
+                    for tgt in prog.callee_targets(t):
+                        inv = self.invokes.get(tgt)
+                        if not inv:
+                            continue
+                        for ai, a in enumerate(t['args']):
+                            if (ai + 1) not in inv or 'l' not in a:
+                                continue
+                            ld = fn.locals[a['l']]
+                            cands = set(x for x in [ld.get('closure') or ld.get('fnitem_d')] if x)
+                            fwd = set()
+                            for o in fn.origins(a):
+                                if o[0] == 'agg':
+                                    rv = fn.B[o[1]]['s'][o[2]][1]
+                                    if 'closure' in rv:
+                                        cands.add(rv['closure'])
+                                if o[0] == 'arg':
+                                    fwd.add(o[1])
+                                elif o[0] == 'field' and o[1][0] == 'arg':
+                                    fwd.add(o[1][1])
+                            if any(c in self.T for c in cands) or any(p in self.live.get(name, ()) for p in fwd):
+                                sl = self.live.setdefault(tgt, set())
+                                if (ai + 1) not in sl:
+                                    sl.add(ai + 1); changed = True
+        self._fix_T()
+
+    def _fix_T(self):
+        prog, seed = self.prog, self.seed
         # T: fixed point
-        self.T = {seed}
-        self.why = {seed: 'seed'}
+        if not hasattr(self, 'T'):
+            self.T = {seed}
+            self.why = {seed: 'seed'}
         changed = True
         while changed:
             changed = False
@@ -238,10 +275,15 @@ class MayCancel:
                     continue
                 fn = prog.fn(name)
                 hit = None
+                phit = None
                 for bi, t in fn.calls():
                     if self.site_may_cancel(fn, bi, t):
-                        hit = (bi, t['fd'])
-                        break
+                        if self._reason == 'own':
+                            hit = (bi, t['fd'])
+                            break
+                        phit = phit or 'param'
+                if hit is None and phit:
+                    hit = 'param'
                 if hit is None and fn.d['kind'] in ('fn', 'assoc') and len(fn.B) == 1:
                     # async fn shell: returns its coroutine
                     for dst, rv in fn.B[0]['s']:
@@ -265,7 +307,9 @@ class MayCancel:
         return out
 
     def site_may_cancel(self, fn, bi, t):
-        """is the call at this site able to yield the cancellation error?"""
+        """is the call at this site able to yield the cancellation error?  (self._reason: 'param' when only through the enclosing function's own
+        callback parameter, 'own' otherwise)"""
+        self._reason = 'own'
         tg = self.prog.callee_targets(t)
         for g in tg:
             if g in self.T and g not in self.invokes:
@@ -287,8 +331,11 @@ class MayCancel:
                             if 'closure' in rv:
                                 cands.add(rv['closure'])
                         if o[0] in ('arg',) or (o[0] == 'field' and o[1][0] == 'arg'):
-                            # forwarding own parameter: parametric, decided at the caller's callers
-                            pass
+                            # forwarding own parameter: may cancel when some caller of this function passes a may-cancel callback in that position
+                            pa = o[1] if o[0] == 'arg' else o[1][1]
+                            if pa in self.live.get(fn.name, ()):
+                                self._reason = 'param'
+                                return True
                     if any(c in self.T for c in cands):
                         return True
                 if g in self.T and not inv:
@@ -298,6 +345,12 @@ class MayCancel:
                     w = self.why[g]
                     if isinstance(w, tuple) and w[1] not in self.CALLS:
                         return True
+        if not tg and t['fd'] in self.CALLS and t['args'] and 'l' in t['args'][0]:
+            for o in fn.origins(t['args'][0]):
+                pa = o[1] if o[0] == 'arg' else (o[1][1] if (o[0] == 'field' and o[1][0] == 'arg') else None)
+                if pa is not None and pa in self.live.get(fn.name, ()):
+                    self._reason = 'param'
+                    return True
         if not tg and t['fd'] in self.CALLS and t['args']:
             # invoking a closure value: local closure in T?
             ld = fn.locals[t['args'][0]['l']] if 'l' in t['args'][0] else {}
